@@ -576,6 +576,8 @@ func vErrClass(log string) string {
 		{"wrong memo for nonce", "memoNonce"},
 		{"strconv.ParseUint", "memoParse"},
 		{"gas limit reached", "gasPool"},
+		{"gas exceeds limit", "meter"},
+		{"commit aborted due to earlier error", "meter"},
 		{"sender not an eoa", "notEOA"},
 		{"gas used exceed limit", "gasOverflow"},
 		{"invalid signature length", "sigBad"},
@@ -602,6 +604,9 @@ func implStage(code uint32, log string, gasWanted int64, evs []abci.Event) strin
 		if c == "gasOverflow" {
 			return c
 		}
+		if c == "meter" && strings.Contains(log, "fee response log") && !strings.Contains(log, "commit aborted") {
+			return "feeRefused"
+		}
 		return "consensus:" + c
 	}
 	return "invalid:" + vErrClass(log)
@@ -618,7 +623,7 @@ type OlvmOptions struct {
 	Only      int // >= 0: run only this case
 }
 
-const olvmRule = "case = one generated block history on the fork genesis family (Frankenstein block 1 or 2, 3 Ethereum-keyed accounts of which one nearly empty, 3 native accounts; every 6th case with a finite block gas limit; cases 0-4 are scripted (4: in a block with a finite gas limit an OLVM tx of A is refused by the block gas pool after Validate passed, then a native SEND credits A, then an OLVM tx from A / to A executes: views, sender debit and total must be exact); the selfdestruct regression scenario (create / fund / trigger: beneficiary +5070, contract record 0, total unchanged), nonce re-use (S12), inner revert (nothing but the sender changes), pay-the-dead (P calls A which selfdestructs, then pays A 1: A gone, exactly 1 burnt)): mixes of OLVM transactions (plain transfers incl. to self / fresh / native-keyed addresses, creations of 6 hand-assembled contracts with and without value incl. failing init code and missing deposit gas, calls that succeed / revert / run out of gas / forward value / pay the caller back / selfdestruct, nonces above and below the state nonce and re-used, exact / one-short / absent funds, 27 ways of breaking a transaction) with native SENDs to the same accounts, contracts and future contract addresses, each offered to CheckTx first. Per transaction on the real application: native view == EVM view (balance, nonce) for every tracked account before and after; for an executed OLVM tx sender / recipient / contract-kind flows, fee pool += gasUsed*price, nonce+1, no other balance record changes, sum of all OLT records unchanged; for a refused one no key of the tree changes; per block a twin replica that never saw the refused transactions or any CheckTx has the same application hash. Correspondence: every DeliverTx / CheckTx of an OLVM tx is re-computed by the Lean model from the decoded pre-state records and the reference interpreter's outputs (go-ethereum EVM on go-ethereum's own state) and must give the same code, stage, gas used / wanted, fee pool and account records. non-trivial = at least one executed value transfer, one executed-but-reverted tx, one refused tx and one native transfer to an EVM-known account; distinct = SHA-256 of the history lines"
+const olvmRule = "case = one generated block history on the fork genesis family (Frankenstein block 1 or 2, 3 Ethereum-keyed accounts of which one nearly empty, 3 native accounts; every 6th case with a finite block gas limit, run through meter overflow (refused reads, transactions on a shut meter, fee step refused); cases 0-4 are scripted (4: in a block with a finite gas limit an OLVM tx of A is refused by the block gas pool after Validate passed, then a native SEND credits A, then an OLVM tx from A / to A executes: views, sender debit and total must be exact); the selfdestruct regression scenario (create / fund / trigger: beneficiary +5070, contract record 0, total unchanged), nonce re-use (S12), inner revert (nothing but the sender changes), pay-the-dead (P calls A which selfdestructs, then pays A 1: A gone, exactly 1 burnt)): mixes of OLVM transactions (plain transfers incl. to self / fresh / native-keyed addresses, creations of 6 hand-assembled contracts with and without value incl. failing init code and missing deposit gas, calls that succeed / revert / run out of gas / forward value / pay the caller back / selfdestruct, nonces above and below the state nonce and re-used, exact / one-short / absent funds, 27 ways of breaking a transaction) with native SENDs to the same accounts, contracts and future contract addresses, each offered to CheckTx first. Per transaction on the real application: native view == EVM view (balance, nonce) for every tracked account before and after; for an executed OLVM tx sender / recipient / contract-kind flows, fee pool += gasUsed*price, nonce+1, no other balance record changes, sum of all OLT records unchanged; for a refused one no key of the tree changes; per block a twin replica that never saw the refused transactions or any CheckTx has the same application hash. Correspondence: every DeliverTx / CheckTx of an OLVM tx is re-computed by the Lean model from the decoded pre-state records and the reference interpreter's outputs (go-ethereum EVM on go-ethereum's own state) and must give the same code, stage, gas used / wanted, fee pool and account records. non-trivial = at least one executed value transfer, one executed-but-reverted tx, one refused tx and one native transfer to an EVM-known account; distinct = SHA-256 of the history lines"
 
 type olvmCase struct {
 	opt    OlvmOptions
@@ -834,11 +839,18 @@ func (oc *olvmCase) run(r *rng.R) (bool, error) {
 				continue
 			}
 			pre := checkViewOf(base, A) // the check state: last commit + what admitted CheckTx calls wrote
-			line, _ := oc.modelLine("check", w, g, o, pre, h-1 >= fork, tracked, confirmed, b, p, A, false)
-			checkExhausted := tight && p.MaxGas-int64(A.App.VerifCheckState().GetCalculator().GetConsumed()) < 2500
+			checkShut, checkCrossing := false, false
+			if tight {
+				cl := p.MaxGas - int64(A.App.VerifCheckState().GetCalculator().GetConsumed())
+				checkShut, checkCrossing = cl <= 0, cl > 0 && cl < 2500
+			}
+			line, _ := oc.modelLine("check", w, g, o, pre, h-1 >= fork, tracked, confirmed, b, p, A, false, checkShut)
 			cr := A.CheckTx(o.Bytes)
-			if checkExhausted {
-				res.Counters["check_state_gas_exhausted_not_compared"]++
+			if checkShut {
+				res.Counters["checktx_on_shut_meter"]++
+			}
+			if checkCrossing {
+				res.Counters["check_meter_crossing_not_compared"]++
 				continue
 			}
 			st := "accepted"
@@ -864,26 +876,18 @@ func (oc *olvmCase) run(r *rng.R) (bool, error) {
 		var keepB [][]byte
 		var keepRes []TxResult
 		for i, o := range ops {
-			// Once the block gas meter is over its limit, storage.State.Get falls through to the COMMITTED
-			// tree (the metered cache's refusal is taken for a miss): every later read of the block sees
-			// last-commit values, e.g. the fee step of the very transaction whose contract gas crossed the
-			// limit adds its charge to the committed pool value and the fees of the block so far are lost
-			// (reported; a storage-layer defect, C09). Until that is repaired a finite-gas history ends
-			// before a transaction that could take the meter over the limit while it runs. A transaction
-			// whose gas limit exceeds what is left is refused at the gas pool and costs a few reads only.
+			// finite-block-gas family: the history runs through meter overflow. A transaction that
+			// arrives on a shut meter (left <= 0) is modelled (Env.meterShut); while the meter crosses
+			// its limit in the middle of Validate (0 < left < 2500) the outcome depends on which read is
+			// the first refused one: monitors stay on, the model comparison is skipped.
 			exhausted := false
+			meterShut := false
 			if tight {
 				left := p.MaxGas - A.App.VerifConsumedGas()
-				need := int64(40000)
-				if o.Native == nil {
-					need = 6000
-					if o.Gas > 0 && o.Gas <= left {
-						need += o.Gas
-					}
-				}
-				if left-need < 3000 {
-					res.Counters["tight_history_ends_before_meter_overflow"]++
-					return executedValue > 0 && executedReverted > 0 && refused > 0 && nativeTouch > 0, nil
+				meterShut = left <= 0
+				exhausted = left > 0 && left < 2500
+				if meterShut {
+					res.Counters["tight_tx_on_shut_meter"]++
 				}
 			}
 			pre := olvmViewOf(base, A)
@@ -899,11 +903,14 @@ func (oc *olvmCase) run(r *rng.R) (bool, error) {
 			var vm VmOut
 			borderline := false
 			if o.Native == nil {
-				line, vm = oc.modelLine("deliver", w, g, o, pre, h >= fork, tracked, confirmed, b, p, A, true)
+				line, vm = oc.modelLine("deliver", w, g, o, pre, h >= fork, tracked, confirmed, b, p, A, true, meterShut)
 				if tight {
 					left := p.MaxGas - A.App.VerifConsumedGas()
 					d := left - o.Gas
-					borderline = (d > -3000 && d < 3000) || exhausted
+					// within 5000 of the limit the pool test, a refused read during Apply or the fee step
+					// (contract gas takes the meter to its limit) decide; the harness cannot observe
+					// the meter at those instants
+					borderline = (d > -5000 && d < 5000 && !meterShut) || exhausted
 					if d < 0 {
 						res.Counters["tight_gas_pool_below_tx_gas"]++
 					}
@@ -1015,7 +1022,7 @@ func (oc *olvmCase) run(r *rng.R) (bool, error) {
 
 // modelLine builds the input line of the Lean model for one OLVM transaction from the decoded
 // pre-state records, the way the transaction was built, and the reference interpreter's outputs.
-func (oc *olvmCase) modelLine(verb string, w *OlvmWorld, g *olvmGen, o *olvmOp, pre *stateView, enabled bool, tracked [][]byte, confirmed map[string]*contractInfo, b *Block, p Params, A *Replica, runShadow bool) (string, VmOut) {
+func (oc *olvmCase) modelLine(verb string, w *OlvmWorld, g *olvmGen, o *olvmOp, pre *stateView, enabled bool, tracked [][]byte, confirmed map[string]*contractInfo, b *Block, p Params, A *Replica, runShadow bool, meterShut bool) (string, VmOut) {
 	var nz, z int
 	for _, c := range o.Data {
 		if c != 0 {
@@ -1129,8 +1136,8 @@ func (oc *olvmCase) modelLine(verb string, w *OlvmWorld, g *olvmGen, o *olvmOp, 
 		toks = append(toks, pre.acctToken(a))
 	}
 	addrOk := o.To == nil || len(*o.To) == 20
-	line := fmt.Sprintf("%s %s 1000000000 %d %s %s %s %d %s %d %s %d %d %d %s %d %s %s %s %s %s %s %s %s %s %s %s %s %s %s",
-		verb, olvmB01(enabled), gasPool, newAddr,
+	line := fmt.Sprintf("%s %s 1000000000 %d %s %s %d %s %s %d %s %d %s %d %d %d %s %d %s %s %s %s %s %s %s %s %s %s %s %s %s %s",
+		verb, olvmB01(enabled), gasPool, newAddr, olvmB01(meterShut), gasPool,
 		hexAddr(fromAddr), toTok, o.Nonce, val, o.Gas, o.Price, nz, z, size, memo,
 		sigs, olvmB01(sigOk), olvmB01(chainOk), olvmB01(senderOk), olvmB01(feeCurOk), olvmB01(amtCurOk), olvmB01(addrOk), olvmB01(o.Tw.NilChainID),
 		olvmB01(!o.Tw.PayloadSpace), olvmB01(signerKeyOk), olvmB01(typeOk), olvmB01(memoCanon),
